@@ -34,6 +34,13 @@ def const_str(e):
         if t.startswith('b"') and t.endswith('"'):
             return t[2:-1]
         if t.startswith('"') and t.endswith('"'):
+            try:
+                import ast
+                v = ast.literal_eval(t)
+                if isinstance(v, str):
+                    return v
+            except Exception:
+                pass
             return t[1:-1]
     return None
 
